@@ -41,9 +41,9 @@ def write_kitti(path, ps, Rs):
         f.write("\n".join(lines) + "\n")
 
 
-def write_euroc(path, stamps_ns, ps, Rs, extra_cols=9):
+def write_euroc(path, stamps_ns, ps, Rs, extra_cols=9, header=True):
     lines = ["#timestamp [ns],p_x,p_y,p_z,q_w,q_x,q_y,q_z,v_x,v_y,v_z,"
-             "b_w_x,b_w_y,b_w_z,b_a_x,b_a_y,b_a_z"]
+             "b_w_x,b_w_y,b_w_z,b_a_x,b_a_y,b_a_z"] if header else []
     for t, R, p in zip(stamps_ns, Rs, ps):
         q = geom.rot_to_quat_wxyz(R)
         vals = [str(int(t))] + [fmt(v) for v in p] + [fmt(v) for v in q] + [
